@@ -179,7 +179,7 @@ func vC06Antisym(a, b vC06Val) {
 	verif.Observe("ab", ab)
 	verif.Observe("ba", ba)
 	if a.isFloat != b.isFloat && !a.null && !b.null {
-		verif.Reach("int-vs-float")
+		verif.Reach("float-vs-nonfloat")
 	}
 	if a.isUint && b.isInt && !a.null && !b.null {
 		verif.Reach("uint-vs-int")
